@@ -3,6 +3,7 @@
 # Uses its own build cache so that it does not disturb other runs.  Output: /tmp/mut_<name>_<id>.log
 NAME=$1; shift
 export VERIF_SCRATCH=/tmp/verif-mut
+export VERIF_REPLAYS=/tmp/verif-mut-replays
 cd /verif
 git -C /repo apply /verif/seeded/$NAME/patch.diff || { echo "patch does not apply"; exit 2; }
 for id in "$@"; do
